@@ -11,8 +11,13 @@ clashing names, strict loadability of the output.
 """
 import ast
 
-from ..astutil import calls_in, call_name, where, kw
-from ..cfg import build_cfg
+import re
+
+from ..astutil import calls_in, call_name, where, kw, atoms_of
+from ..cfg import build_cfg, enclosing_handlers
+from ..dataflow import private_closure
+from ..symtext import Expander, effect_calls
+from .c04 import _id_shape
 from ..fold import Folder, format_tables
 from ..model import AnalysisError, unparse, walk_no_nested
 from .common_tables import resolves_to_format_version
@@ -39,123 +44,179 @@ def run(prog, rep):
     mod = vc.module
     fd = Folder(prog)
 
-    # ----------------------------------------------------------------- LOG-1
-    rep.rule("LOG-1", "in _convert, _handle_properties and _handle_value: every <x>.remove(elem) of an element other than a folded "
-                      "<value> element, and the final `else` of _handle_value, and the conflicting-duplicate branch, has a self._log(...) "
-                      "call in the same statement block; _log appends its message to self.conversion_log")
-    n_drop = 0
-    for name in ("_convert", "_handle_properties"):
-        f = vc.lookup_method(name)
-        if f is None:
-            raise AnalysisError("VersionConverter.%s vanished" % name)
-        rep.saw_function(f)
-        for blk in _blocks(f.node):
-            for st in blk:
-                if isinstance(st, ast.Expr) and isinstance(st.value, ast.Call) and isinstance(st.value.func, ast.Attribute) \
-                        and st.value.func.attr == "remove" and st.value.args:
-                    arg = unparse(st.value.args[0])
-                    if arg == "value":
-                        continue     # folded into the united value element, not dropped
-                    n_drop += 1
-                    logged = any(isinstance(s2, ast.Expr) and isinstance(s2.value, ast.Call) and call_name(s2.value) == "self._log" for s2 in blk)
-                    rep.check(logged, "LOG-1", "%s: %s logged" % (name, unparse(st.value)[:40]), "self._log in the same block",
-                              "%s drops `%s` without a self._log(...) in the same block" % (name, arg), where(f, st),
-                              witness="an unsupported element disappears without a log entry")
-    hv = vc.lookup_method("_handle_value")
-    rep.saw_function(hv)
-    # the if/elif chain over val_elem: the final else and the conflicting branch must log
-    chains = [n for n in walk_no_nested(hv.node) if isinstance(n, ast.If) and "check_export is not None" in unparse(n.test)]
-    rep.check(len(chains) == 1, "LOG-1", "_handle_value: export decision chain", "ok", "the export decision chain of _handle_value changed shape", hv.where)
-    if chains:
-        node = chains[0]
-        last = node
-        while last.orelse and len(last.orelse) == 1 and isinstance(last.orelse[0], ast.If):
-            last = last.orelse[0]
-        n_drop += 1
-        logged = any(isinstance(s2, ast.Expr) and isinstance(s2.value, ast.Call) and call_name(s2.value) == "self._log" for s2 in last.orelse)
-        rep.check(bool(last.orelse) and logged, "LOG-1", "_handle_value: unsupported value attribute logged", "else: self._log",
-                  "the final else of _handle_value (attribute neither exported nor mapped) does not log", where(hv, last),
-                  witness="a value attribute unknown to 1.1 vanishes silently")
-        conflict = [n for n in ast.walk(node) if isinstance(n, ast.If) and "check_export.text != val_elem.text" in unparse(n.test)]
-        n_drop += 1
-        rep.check(len(conflict) == 1 and any(call_name(c) == "self._log" for c in calls_in(conflict[0])), "LOG-1",
-                  "_handle_value: conflicting duplicate logged", "ok", "a conflicting duplicate value attribute is dropped without log", where(hv, node))
+    cv = vc.lookup_method("_convert")
     hp = vc.lookup_method("_handle_properties")
-    noname = [n for n in walk_no_nested(hp.node) if isinstance(n, ast.If) and unparse(n.test) == "prop.find('name') is None"]
-    rep.check(len(noname) == 1 and any(call_name(c) == "self._log" for c in calls_in(noname[0]))
-              and any(unparse(c.func).endswith(".remove") for c in calls_in(noname[0])), "LOG-1", "unnamed Property dropped and logged", "ok",
-              "the unnamed-Property branch does not both remove and log", hp.where)
-    rep.floor("LOG-1", n_drop, 5, "drop sites")
+    hv = vc.lookup_method("_handle_value")
     lg = vc.lookup_method("_log")
-    rep.check("self.conversion_log.append(%s)" % lg.params[1] in unparse(lg.node), "LOG-1", "_log records the message", "ok",
-              "_log does not append to self.conversion_log", lg.where)
+    for nm, f in (("_convert", cv), ("_handle_properties", hp), ("_handle_value", hv), ("_log", lg)):
+        if f is None:
+            raise AnalysisError("VersionConverter.%s vanished" % nm)
+        rep.saw_function(f)
+    me = cv.params[0]
+    is_log = lambda c: isinstance(c.func, ast.Attribute) and c.func.attr == "_log"
+    is_remove = lambda c: isinstance(c.func, ast.Attribute) and c.func.attr == "remove" and len(c.args) == 1
+    is_append = lambda c: isinstance(c.func, ast.Attribute) and c.func.attr == "append" and len(c.args) == 1
+
+    # ----------------------------------------------------------------- LOG-1
+    rep.rule("LOG-1", "over _convert and everything it calls in the class (helpers inlined): every <x>.remove(e) - except the <value> "
+                      "elements folded into the united value and the id element replaced by _add_id - has a self._log(...) call in the "
+                      "same function under exactly the same conditions; in _handle_value every way through one loop iteration either "
+                      "exports (appends to the parent Property), logs, skips the <value> element itself, or found an equal text already "
+                      "exported; _log appends its message to self.conversion_log")
+    removes = [e for e in effect_calls(prog, cv, is_remove, depth=4)]
+    logs = [e for e in effect_calls(prog, cv, is_log, depth=4)]
+    n_drop = 0
+    for e in removes:
+        if e.func.name == "_add_id":
+            continue
+        arg = unparse(e.call.args[0])
+        if re.search(r"EACH\(.*\.iter\('value'\)\)$", arg):
+            continue         # folded into the united value element, not dropped
+        n_drop += 1
+        gs = sorted(e.guards())
+        logged = any(l.func is e.func and sorted(l.guards()) == gs for l in logs)
+        rep.check(logged, "LOG-1", "%s: %s logged" % (e.func.name, unparse(e.raw)[:40]), "self._log under the same conditions",
+                  "%s drops `%s` without a self._log(...) under the same conditions %s" % (e.func.name, unparse(e.raw.args[0]), gs), where(e.func, e.raw),
+                  witness="an unsupported element disappears without a log entry")
+    rep.floor("LOG-1", n_drop, 4, "drop sites")
+    # _handle_value: iteration paths
+    g = build_cfg(hv)
+    hx = Expander(hv, g)
+    loops = [n for n in g.nodes if n.kind == "for" and hx.text(n.ast.iter, n).endswith(".iter()")]
+    rep.check(len(loops) == 1, "LOG-1", "_handle_value iterates the value element", "ok", "the loop over <value>.iter() of _handle_value vanished", hv.where)
+    if len(loops) == 1:
+        loop = loops[0]
+        item = "EACH(%s)" % hx.text(loop.ast.iter, loop)
+        marked = set(e.node.id for e in effect_calls(prog, hv, lambda c: is_log(c) or is_append(c)))
+        paths = _iteration_paths(g, loop)
+        rep.analysed["paths"] += len(paths)
+        n_silent = 0
+        for path in paths:
+            if any(n.id in marked for n, _ in path):
+                continue
+            atoms = []
+            for n, edge in path:
+                if n.kind == "branch" and edge in ("true", "false"):
+                    atoms += atoms_of(n.ast.test, edge == "true", lambda x0, n=n: hx.text(x0, n))
+            own = ("%s.tag == 'value'" % item, True) in atoms
+            same = any(p and re.match(r"^.+\.text == %s\.text$" % re.escape(item), t) for t, p in atoms)
+            n_silent += 1
+            rep.check(own or same, "LOG-1", "_handle_value: silent path %s" % "->".join("L%d" % n.lineno for n, _ in path if n.lineno)[:60],
+                      "the element is the <value> itself or an equal text was exported before",
+                      "a way through _handle_value neither exports nor logs the value attribute (conditions %s)" % atoms,
+                      where(hv, path[0][0].ast if path and path[0][0].ast is not None else hv.node),
+                      witness="a value attribute unknown to 1.1 (or a conflicting duplicate) vanishes silently")
+        rep.floor("LOG-1", len(paths), 4, "iteration paths of _handle_value")
+        rep.floor("LOG-1", n_silent, 1, "silent iteration paths of _handle_value (skip of the <value> element itself)")
+    lgx = [c for c in calls_in(lg.node) if unparse(c.func) == "%s.conversion_log.append" % lg.params[0] and len(c.args) == 1
+           and Expander(lg).text(c.args[0]) == lg.params[1]]
+    rep.check(bool(lgx), "LOG-1", "_log records the message", "ok", "_log does not append its message to self.conversion_log", lg.where)
 
     # ---------------------------------------------------------------- TAB-11
-    rep.rule("TAB-11", "_convert filters Section children against Section.arguments_keys and root children against "
-                       "Document.arguments_keys; _handle_properties filters against Property.arguments_keys; _version_map values, the "
-                       "renamed tag 'dependencyvalue' and created tags 'value'/'id' are Property/any-level 1.1 keys")
-    cv = vc.lookup_method("_convert")
-    txt = unparse(cv.node)
-    rep.check("elem.tag not in Section.arguments_keys" in txt and "elem.tag not in Document.arguments_keys" in txt, "TAB-11",
-              "_convert filters each level against its own table", "ok", "_convert does not filter Sections/root against Section/Document.arguments_keys", cv.where,
-              witness="a valid Section element (e.g. <link>) is dropped, or an invalid one kept and refused by the strict reader")
-    sec_loop = [n for n in walk_no_nested(cv.node) if isinstance(n, ast.For) and unparse(n.iter) == "root.iter('section')"]
-    rep.check(len(sec_loop) == 1 and "Section.arguments_keys" in unparse(sec_loop[0]) and "Document.arguments_keys" not in unparse(sec_loop[0])
-              and "Property.arguments_keys" not in unparse(sec_loop[0]), "TAB-11", "Section loop uses the Section table only", "ok",
-              "the Section loop consults another level's table", cv.where)
-    rep.check("elem.tag not in Property.arguments_keys" in unparse(hp.node), "TAB-11", "_handle_properties filters against Property.arguments_keys", "ok",
-              "Property children are not filtered against Property.arguments_keys", hp.where)
+    rep.rule("TAB-11", "every removal guarded by `<e>.tag not in <F>.arguments_keys` uses the table of the level it iterates: children of "
+                       "<root>.iter('section') -> Section, children of <root>.iter('property') -> Property, children of the root -> "
+                       "Document; all three filters exist; _handle_value exports ET.Element(<e>.tag) only under `<e>.tag in "
+                       "Property.arguments_keys` and ET.Element(self._version_map[<e>.tag]) only under `<e>.tag in self._version_map`; "
+                       "_version_map values, the renamed tag and created tags are 1.1 Property keys")
+    levels = {}
+    for e in removes:
+        tabs_used = [m.group(2) for t, p in e.guards() if not p for m in [re.match(r"^(.+)\.tag in (\w+)\.arguments_keys$", t)] if m]
+        if not tabs_used:
+            continue
+        cont = unparse(e.call.func.value)
+        level = "Section" if re.search(r"^EACH\(.*\.iter\('section'\)\)$", cont) else \
+            "Property" if re.search(r"^EACH\(.*\.iter\('property'\)\)$", cont) else \
+            "Document" if cont.endswith(".getroot()") else None
+        if level is None:
+            rep.fail("TAB-11", "%s|filter-level" % e.func.short, "cannot tell which level `%s` (container %s) filters" % (unparse(e.raw), cont), where(e.func, e.raw))
+            continue
+        levels[level] = tabs_used
+        rep.check(set(tabs_used) == set([level]), "TAB-11", "%s children filtered against %s.arguments_keys" % (level, level), str(tabs_used),
+                  "children of a %s are filtered against the table of %s" % (level, tabs_used), where(e.func, e.raw),
+                  witness="a valid %s element (e.g. <link>) is dropped, or an invalid one kept and refused by the strict reader" % level)
+    rep.check(set(levels) == set(["Document", "Section", "Property"]), "TAB-11", "all three levels are filtered", str(sorted(levels)),
+              "filters found only for %s" % sorted(levels), cv.where, witness="an unsupported element survives and the strict reader refuses the file")
+    n_exp = 0
+    for e in effect_calls(prog, hv, is_append):
+        arg = e.call.args[0]
+        if not (isinstance(arg, ast.Call) and call_name(arg) == "ET.Element" and len(arg.args) == 1):
+            continue
+        n_exp += 1
+        tag = unparse(arg.args[0])
+        gs = e.guards()
+        m1 = re.match(r"^(.+)\.tag$", tag)
+        m2 = re.match(r"^%s\._version_map\[(.+)\.tag\]$" % re.escape(hv.params[0]), tag)
+        if m2:
+            good = ("%s.tag in %s._version_map" % (m2.group(1), hv.params[0]), True) in gs
+        elif m1:
+            good = ("%s.tag in Property.arguments_keys" % m1.group(1), True) in gs
+        else:
+            good = False
+        rep.check(good, "TAB-11", "_handle_value exports %s under its table test" % tag[:50], "ok",
+                  "_handle_value creates element %s without the matching table test (conditions %s)" % (tag, gs), where(e.func, e.raw))
+    rep.floor("TAB-11", n_exp, 2, "exports in _handle_value")
     vm = fd.class_attr(vc, "_version_map")
     pkeys = set(tabs["Property"]["_args"])
     rep.check(isinstance(vm, dict) and set(vm.values()) <= pkeys and set(vm) == {"filename", "dtype"}, "TAB-11", "_version_map targets are Property keys", str(vm),
               "_version_map %s maps to non-Property keys %s" % (vm, sorted(set(vm.values()) - pkeys) if isinstance(vm, dict) else "?"), mod.path,
               witness="the file name / dtype of a 1.0 value is written under a tag the 1.1 reader refuses")
     lits = set()
-    for f in (hp, hv, vc.lookup_method("_add_id")):
-        for n in ast.walk(f.node):
-            if isinstance(n, ast.Call) and call_name(n) == "ET.Element" and n.args and isinstance(n.args[0], ast.Constant):
-                lits.add(n.args[0].value)
-            if isinstance(n, ast.Assign) and unparse(n.targets[0]).endswith(".tag") and isinstance(n.value, ast.Constant):
-                lits.add(n.value.value)
-    rep.check(lits <= pkeys, "TAB-11", "created / renamed tags are 1.1 keys", str(sorted(lits)), "the converter creates tags %s outside the Property table" % sorted(lits - pkeys), mod.path)
-    rep.check("val_elem.tag in Property.arguments_keys" in unparse(hv.node) and "val_elem.tag in self._version_map" in unparse(hv.node), "TAB-11",
-              "_handle_value exports supported and mapped attributes", "ok", "_handle_value no longer tests Property.arguments_keys / _version_map", hv.where)
+    for f0 in (hp, hv, vc.lookup_method("_add_id")):
+        for f in private_closure(f0):
+            for n in ast.walk(f.node):
+                if isinstance(n, ast.Call) and call_name(n) == "ET.Element" and n.args and isinstance(n.args[0], ast.Constant):
+                    lits.add(n.args[0].value)
+                if isinstance(n, ast.Assign) and unparse(n.targets[0]).endswith(".tag") and isinstance(n.value, ast.Constant):
+                    lits.add(n.value.value)
+    rep.check(lits <= pkeys and bool(lits), "TAB-11", "created / renamed tags are 1.1 keys", str(sorted(lits)), "the converter creates tags %s outside the Property table" % sorted(lits - pkeys), mod.path)
 
     # ---------------------------------------------------------------- PROV-8
-    rep.rule("PROV-8", "_add_id: new_id.text starts as str(uuid.uuid4()); if an id element exists and has text it becomes "
-                       "str(uuid.UUID(text)) inside a try whose ValueError handler keeps the fresh one; the old element is removed and "
-                       "the new one appended on every path")
+    rep.rule("PROV-8", "_add_id: the element it appends (on every path) gets its text from str(uuid.uuid4()) before any branch; the only "
+                       "other text is str(uuid.UUID(<old id>.text)) inside a try whose ValueError handler keeps the fresh one; "
+                       "_check_add_ids calls it for the root, every Section and every Property")
     ai = vc.lookup_method("_add_id")
     rep.saw_function(ai)
     g = build_cfg(ai)
-    t = unparse(ai.node)
-    rep.check("new_id.text = str(uuid.uuid4())" in t and "new_id.text = str(uuid.UUID(oid.text))" in t and "except ValueError" in t, "PROV-8",
-              "_add_id normalises or replaces", "ok", "_add_id no longer (fresh uuid4 | str(uuid.UUID(old)) under except ValueError)", ai.where,
-              witness="a malformed id is kept / a valid one replaced")
-    app = [n for n in g.nodes if n.kind == "stmt" and unparse(n.ast) == "%s.append(new_id)" % ai.params[0]]
+    app = [n for n in g.nodes if n.kind == "stmt" and isinstance(n.ast, ast.Expr) and isinstance(n.ast.value, ast.Call) and is_append(n.ast.value)
+           and unparse(n.ast.value.func.value) == ai.params[0] and isinstance(n.ast.value.args[0], ast.Name)]
     rep.check(len(app) == 1 and all(g.dominates(app[0], p) for _, p in g.exit.pred), "PROV-8", "_add_id always appends an id", "ok",
               "some path through _add_id appends no id element", ai.where, witness="an element without id in the output")
-    first = [n for n in g.nodes if n.kind == "stmt" and unparse(n.ast) == "new_id.text = str(uuid.uuid4())"]
-    rep.check(bool(first) and bool(app) and g.dominates(first[0], app[0]), "PROV-8", "the fresh id is prepared before any branch", "ok",
-              "the fresh uuid is not assigned on every path before appending", ai.where)
+    if len(app) == 1:
+        nv = app[0].ast.value.args[0].id
+        stores = [n for n in g.nodes if n.kind == "stmt" and isinstance(n.ast, ast.Assign) and unparse(n.ast.targets[0]) == "%s.text" % nv]
+        shapes = [(_id_shape(n.ast.value), n) for n in stores]
+        fresh = [n for sh, n in shapes if sh == ("fresh",)]
+        parse = [n for sh, n in shapes if sh and sh[0] == "parse"]
+        other = [n for sh, n in shapes if sh is None]
+        in_try = all(any(k == "except" and any(c in ("ValueError", "Exception", "*") for c in hn.info["classes"]) for h in enclosing_handlers(g, n) for k, hn in h.succ)
+                     for n in parse)
+        rep.check(bool(fresh) and bool(parse) and not other and in_try, "PROV-8", "_add_id normalises or replaces", "ok",
+                  "_add_id no longer (fresh uuid4 | str(uuid.UUID(old)) under except ValueError): %s" % [unparse(n.ast) for n in stores], ai.where,
+                  witness="a malformed id is kept / a valid one replaced")
+        rep.check(bool(fresh) and g.dominates(fresh[0], app[0]), "PROV-8", "the fresh id is prepared before any branch", "ok",
+                  "the fresh uuid is not assigned on every path before appending", ai.where)
     ca = vc.lookup_method("_check_add_ids")
-    t = unparse(ca.node)
-    rep.check("self._add_id(root)" in t and "self._add_id(sec)" in t and "self._add_id(prop)" in t, "PROV-8", "ids are handled for root, Sections and Properties", "ok",
-              "_check_add_ids does not visit root, every Section and every Property", ca.where)
+    args = [unparse(e.call.args[0]) for e in effect_calls(prog, ca, lambda c: isinstance(c.func, ast.Attribute) and c.func.attr == "_add_id" and len(c.args) == 1)]
+    good = any(a.endswith(".getroot()") for a in args) and any(re.search(r"^EACH\(.*\.iter\('section'\)\)$", a) for a in args) \
+        and any(re.search(r"^EACH\(.*\.iter\('property'\)\)$", a) for a in args)
+    rep.check(good, "PROV-8", "ids are handled for root, Sections and Properties", str(args),
+              "_check_add_ids does not visit root, every Section and every Property: %s" % args, ca.where)
 
     # ----------------------------------------------------------------- VER-2
-    rep.rule("VER-2", "_convert: root.set('version', FORMAT_VERSION) and the calls _replace_same_name_entities, _handle_properties, "
-                      "_check_add_ids lie on every path to the return")
+    rep.rule("VER-2", "_convert: <root>.set('version', FORMAT_VERSION) and the call of _handle_properties lie on every path to the return; "
+                      "_replace_same_name_entities and _check_add_ids are called")
     g = build_cfg(cv)
-    for want in ("root.set('version', FORMAT_VERSION)", "self._handle_properties(root)"):
-        nodes = [n for n in g.nodes if n.kind == "stmt" and unparse(n.ast) == want]
-        rep.check(len(nodes) == 1 and all(g.dominates(nodes[0], p) for _, p in g.exit.pred), "VER-2", "_convert: %s on every path" % want, "ok",
-                  "_convert does not execute `%s` on every path" % want, cv.where, witness="the output is refused by the strict reader (version)")
-    sets = [c for c in calls_in(cv.node) if call_name(c) == "root.set" and c.args and isinstance(c.args[0], ast.Constant) and c.args[0].value == "version"]
-    rep.check(len(sets) == 1 and resolves_to_format_version(prog, mod, sets[0].args[1]), "VER-2", "version stamp is info.FORMAT_VERSION", "ok",
+    stamps = effect_calls(prog, cv, lambda c: isinstance(c.func, ast.Attribute) and c.func.attr == "set" and len(c.args) == 2
+                          and isinstance(c.args[0], ast.Constant) and c.args[0].value == "version")
+    ok = len(stamps) == 1 and all(g.dominates(stamps[0].node, p) for _, p in g.exit.pred) and unparse(stamps[0].call.func.value).endswith(".getroot()")
+    rep.check(ok, "VER-2", "_convert: the root is stamped on every path", "ok", "_convert does not execute <root>.set('version', ...) on every path", cv.where,
+              witness="the output is refused by the strict reader (version)")
+    rep.check(len(stamps) == 1 and resolves_to_format_version(prog, mod, stamps[0].raw.args[1]), "VER-2", "version stamp is info.FORMAT_VERSION", "ok",
               "the version stamp is not the imported FORMAT_VERSION", cv.where)
-    for want in ("self._replace_same_name_entities(tree)", "self._check_add_ids(tree)"):
-        rep.check(want in unparse(cv.node), "VER-2", "_convert runs %s" % want.split("(")[0][5:], "ok", "_convert no longer calls %s" % want, cv.where)
+    for want in ("_handle_properties", "_replace_same_name_entities", "_check_add_ids"):
+        nodes = [n for n in g.nodes for r in n.expr_roots() for c in calls_in(r) if isinstance(c.func, ast.Attribute) and c.func.attr == want]
+        rep.check(len(nodes) >= 1 and all(g.dominates(nodes[0], p) for _, p in g.exit.pred), "VER-2", "_convert runs %s on every path" % want, "ok",
+                  "_convert does not call %s on every path" % want, cv.where)
 
     # ---------------------------------------------------------------- DICT-1
     rep.rule("DICT-1", "_parse_dict_document/_sections/_properties/_values: the loops run over the keys of the entry; every `if`/`elif` "
@@ -201,7 +262,9 @@ def run(prog, rep):
               "Section and Property names are counted in the same map %s: a Property and a sub-Section of the same name clash" % maps, rs.where,
               witness="a Section with a Property 'x' and a sub-Section 'x': the sub-Section becomes 'x-2'")
     if ok:
-        pm = [m for m, n in zip(maps, names) if "prop" in n][0] if any("prop" in n for n in names) else maps[1]
+        rx = Expander(rs)
+        xnames = [rx.text(c.args[2]) for c in cs]
+        pm = [m for m, n in zip(maps, xnames) if "iter('property')" in n][0] if any("iter('property')" in n for n in xnames) else maps[1]
         rep.check("%s.clear()" % pm in unparse(rs.node), "MAP-1", "Property map reset per Section", "ok",
                   "the Property name map is not cleared per Section", rs.where, witness="equal Property names in different Sections get suffixes")
 
@@ -216,7 +279,7 @@ def run(prog, rep):
                 w = is_write_open(c)
                 target = unparse(c.args[0]) if c.args else "?"
                 if f.name == "write_to_file":
-                    rep.check(w and target == "filename", "SRC-1", "write_to_file opens its target for writing", target,
+                    rep.check(w and target == f.params[1], "SRC-1", "write_to_file opens its target for writing", target,
                               "write_to_file opens %s" % target, where(f, c))
                 else:
                     rep.check(not w, "SRC-1", "%s opens %s read-only" % (f.name, target), "read mode",
@@ -253,4 +316,29 @@ def _direct_ifs(loop):
         out.append(n)
         if len(n.orelse) == 1 and isinstance(n.orelse[0], ast.If):
             stack.append(n.orelse[0])
+    return out
+
+
+def _iteration_paths(g, loop, limit=4000):
+    """paths through one iteration of `loop`: from its 'iter' edge back to the loop node (or out of the function)."""
+    out = []
+    start = [m for k, m in loop.succ if k == "iter"]
+    stack = [([(m, None)], set([m.id])) for m in start]
+    while stack:
+        path, seen = stack.pop()
+        n = path[-1][0]
+        succ = [(k, m) for k, m in n.succ if k != "exc"]
+        if not succ:
+            out.append(path)
+            continue
+        for k, m in succ:
+            p2 = path[:-1] + [(n, k)]
+            if m.id == loop.id or m.kind in ("exit", "raise_exit"):
+                out.append(p2)
+            elif m.id in seen:
+                continue
+            else:
+                stack.append((p2 + [(m, None)], seen | set([m.id])))
+            if len(out) > limit:
+                raise AnalysisError("too many iteration paths")
     return out
